@@ -52,7 +52,7 @@ ASSUMPTIONS = ["user functions are pure and total; they are left uninterpreted (
                "execute_graph_operational assumes the nodes are taken in an order with dependencies first (TopoListed); that "
                "dask.order.order returns such an order is property C06 (proved checker on every real output)",
                "the caller's cache holds no key of the graph (dask.core.get passes none)"]
-CASE_TIMEOUT_S = 10
+CASE_TIMEOUT_S = 30
 
 def _outcome(fn):
     try:
@@ -85,6 +85,8 @@ def case_legacy(ctx, inp):
         kinds.add(type(n).__name__)
     for kd in kinds:
         ctx.branch("node-" + kd)
+    if inp.get("enum"):
+        ctx.branch("enumerated-term")
     # (2) values.  A graph is compared against the statement only if it has a meaning at all: every key must
     # evaluate under the statement's traversal (no cycle); otherwise only the model/implementation diff is made.
     wellformed = all(_outcome(lambda k=build(kj), f=f: ref_eval(dsk, k, *f))[0] == "ok"
@@ -481,7 +483,7 @@ def _gen_spec_graph(rng, n):
 
 def generate(ctx):
     rng = ctx.rng
-    # the witnesses of the two known divergences and the statement's own example
+    # the witnesses of the two former divergences (repaired: ca6daad, 83e63e1) and the statement's own example
     yield "legacy", {"graph": [["a", 1], ["b", {"t": [{"fn": 0}, {"d": [["x", "a"]]}]}]]}
     yield "legacy", {"graph": [["a", 1], ["b", {"t": [{"fn": 0}, {"t": [1, "a"]}]}]]}
     yield "legacy", {"graph": [[{"t": ["x", 0]}, 5], ["b", {"t": [{"fn": 1}, {"d": [["k", {"l": [{"t": ["x", 0]}, 2]}]]}]}]]}
@@ -490,6 +492,34 @@ def generate(ctx):
         for _ in range(ctx.n(nq)):
             n = rng.randint(1, 6)
             yield "legacy", {"graph": gen_legacy_graph(rng, n, flavour)}
+    # exhaustive bounded terms (the statement's quantifier): every term of depth <= 1 over the leaves {string key,
+    # tuple key, literals, quoted key} and the constructors {call/1, call/2, list, non-task tuple, dict/1, dict/2} in
+    # quick; in the thorough tier also every depth-2 term with one depth-1 child
+    leaves = ["a", {"t": ["x", 1]}, 50, "zz", None, {"q": "a"}]
+
+    def cons(c1, c2):
+        return [{"t": [{"fn": 0}, c1]}, {"t": [{"fn": 1}, c1, c2]}, {"l": [c1, c2]}, {"t": [51, c1]},
+                {"d": [["k", c1]]}, {"d": [["k", c1], [61, c2]]}]
+    depth1 = [{"l": []}] + [t for c1 in leaves for c2 in leaves for t in cons(c1, c2)]
+    seen_t = set()
+
+    def emit(t):
+        key = json.dumps(t, sort_keys=True)
+        if key in seen_t:
+            return None
+        seen_t.add(key)
+        return "legacy", {"graph": [["a", 1], [{"t": ["x", 1]}, {"t": [{"fn": 2}, 7]}], ["b", t]], "enum": True}
+    for t in depth1:
+        r = emit(t)
+        if r:
+            yield r
+    if ctx.thorough():
+        for d1 in depth1:
+            for lf in leaves[:4]:
+                for t in cons(d1, lf)[:5] + cons(lf, d1)[1:3]:
+                    r = emit(t)
+                    if r:
+                        yield r
     for _ in range(ctx.n(500)):
         yield "spec", {"graph": _gen_spec_graph(rng, rng.randint(1, 6)),
                        "cache": [["ext", 7]] if rng.random() < 0.2 else []}
